@@ -76,6 +76,28 @@ func (self *MaxJobsSemaphore) Acquire(metadata *Metadata, nonblocking bool) bool
 	return true
 }
 
+// Reattach records that this metadata object's job is already queued or
+// running on the cluster, as found when restarting.  It never waits: the job
+// occupies a slot whether or not there is room for it, and new jobs are held
+// back until enough of them have finished.
+func (self *MaxJobsSemaphore) Reattach(metadata *Metadata) {
+	if metadata == nil {
+		return
+	}
+	if st, ok := metadata.getState(); ok && st != Queued && st != Waiting && st != Running {
+		return
+	}
+	self.lock.Lock()
+	defer self.lock.Unlock()
+	if self.Limit <= 0 {
+		return
+	}
+	if _, ok := self.running[metadata]; !ok {
+		self.running[metadata] = struct{}{}
+		verifSlot(self, "SlotAcquire", metadata)
+	}
+}
+
 // Clear this semaphore and release all pending acquisitions.
 //
 // The semaphore can no longer be used after being cleared this way.
